@@ -8,6 +8,7 @@ OBLIGATIONS = [
     "KafVerif.C12.no_foreign_topic",
     "KafVerif.C12.assign_only_members",
     "KafVerif.C12.sync_reply_is_assignment",
+    "KafVerif.C12.stable_assignment_valid",
     "KafVerif.C12.joinOld_violates",
 ]
 BUILDS = G.BUILDS
@@ -23,7 +24,7 @@ LEVEL_TEXT = ("Lean 4 theorems about the executable model of GroupCoordinator (a
               "diffing replies and full state dumps, plus a direct monitor of the property on the real replies.")
 TECHNIQUE = "Lean 4 proof over a hand-written model + Go/Lean differential correspondence + property monitor on the implementation trace"
 
-PROFILE = G.profile(weights={"resub": 6, "converge": 5, "sync": 12, "meta": 3, "commit": 1, "fetch": 0, "hb": 4, "fail": 1},
+PROFILE = G.profile(etcd_quick=3, etcd_thorough=30, weights={"resub": 6, "converge": 5, "sync": 12, "meta": 3, "commit": 1, "fetch": 0, "hb": 4, "fail": 1},
                     resub=35, stale_gen=8)
 RULE = ("membership histories (join/sync/heartbeat/leave/tick+cleanup/failover/metadata change/store fault) for 1-2 groups of "
         "1-4 clients over 4 topics with 0-5 partitions, generated from VERIF_SEED; non-trivial = some group reached Stable; "
